@@ -64,10 +64,11 @@ prop("C03", level="proof",
                 "_create_violation_messages consists of records of the eight buckets in their roles (every record stems from some bucket, every entry of every bucket has its record); "
                 "create_rule_violation_messages renders each record as 'subject verb object.', every line is such a rendering, every bucket entry has its line, no line occurs twice; "
                 "create_rule_violation_message / RuleMatcher._create_rule_violation_message return a newline-join of exactly those lines for the generator of the rule's direction. "
-                "NOT modelled (bounded only): the ORDER of lines and of the objects within a line (sorted / list.sort), multiplicities inside a joined text, and the wording of the verb "
-                "prefix table (PREFIX_MAPPING enters as the uninterpreted function verb_prefix); the bounded stand-in parses real messages and compares them with the reference violating set.",
+                "The verb wording ('imports' / 'does not import' / 'is [not] imported by' / plural forms) is the documented table, against which the source's PREFIX_MAPPING is verified. "
+                "NOT modelled (bounded only): the ORDER of lines and of the objects within a line (sorted / list.sort) and multiplicities inside a joined text; "
+                "the bounded stand-in parses real messages and compares them with the reference violating set.",
      level_note=_RULE_NOTE + " Message layer: sep.join over a list seen as a collection is the uninterpreted relation is_join(text, sep, elements) (order and multiplicities unmodelled); "
-                "_get_verb_prefix assumed (table lookup). Bounded (not proved): order of lines / objects, exact verb wording.",
+                "Bounded (not proved): order of lines / objects.",
      explanation="Search/detector postconditions are the violating sets; message records, lines and text under contract (which names in which role); order and wording compared natively.",
      roots=["Rule.assert_applies", "RuleViolationBaseDetector.get_rule_violation", "RuleViolationMessageGenerator._create_other_violating_dependencies_message",
             "RuleViolationMessageGenerator._get_violating_rule_subjects_and_objects", "RuleViolationMessageBaseGenerator.create_rule_violation_message",
